@@ -16,7 +16,7 @@ def public_attrs(msg, expected=None):
     return [n for n in expected if hasattr(msg, n)]
 
 
-def compare_parse(mode, clsid, payload, parsebf, label=None):
+def compare_parse(mode, clsid, payload, parsebf, label=None, msg=None):
     """Returns (status, violations, nattrs).  status in
     'ok' | 'skip-undefined' | 'skip-nonconforming' | 'skip-invalid-types' | 'viol'."""
     try:
@@ -31,7 +31,8 @@ def compare_parse(mode, clsid, payload, parsebf, label=None):
     frame = ref.frame(clsid[0], clsid[1], payload)
     pb = f"pbf={int(bool(parsebf))}"
     try:
-        msg = UBXReader.parse(frame, msgmode=mode, parsebitfield=parsebf)
+        if msg is None:  # (a message delivered by a reader may be passed in instead)
+            msg = UBXReader.parse(frame, msgmode=mode, parsebitfield=parsebf)
     except UBX_ERRORS as e:
         return "viol", [(f"conforming_payload_refused|{label}|{pb}|{type(e).__name__}", f"{e}")], 0
     except Exception as e:  # noqa: BLE001  (C08 judges the class; for C02 it is a refusal too)
